@@ -191,6 +191,14 @@ pub fn gen_pro(r: &mut Rng, thorough: bool, cx: &mut Ctx) {
         let mut l = vec![own as u64, ops.len() as u64]; for o in ops.iter() { push_list(&mut l, o); }
         cx.emit(&l);
     }
+    // sends of large packets (up to the 4096-frame limit) to another device, to broadcast and to the own address
+    for &n in &[1793usize, 28665, 28666, 28672] {
+        let own: u16 = if n == 28666 { 0xffff } else { r.u16b() as u16 };
+        let mut ops: Vec<L> = vec![vec![0, 1, 0, 0], vec![0, 2, 1, 0]];
+        for a in [other_addr(r, own), 0xffff, own] { let mut b: L = vec![3]; let p = Packet { is_error: r.coin(), device_address: a, data: r.bytes(n) }; show_packet(&p, &mut b); ops.push(b); }
+        let mut l = vec![own as u64, ops.len() as u64]; for o in ops.iter() { push_list(&mut l, o); }
+        cx.emit(&l);
+    }
     // the marked veteran case (see exec_pro): a short ordinary history on an object that has already handled 70000 packets each way
     {
         let own = 0xbeefu16; let mut ops: Vec<L> = vec![vec![0, 1, 0, 0], vec![0, 2, 1, 0]];
